@@ -183,11 +183,13 @@ def c12_search(rng, n):
             t0 = rng.choice([1000.0, 50.0, -300.0, 4096.0])
             dt = abs(t0) * rng.choice([1e-5, 4e-6, 2e-5])
             ts = sorted({t0} | {t0 + dt * (rng.randrange(0, 8) + rng.choice([0.1, 0.37, 0.5, 0.81, 0.97])) for _ in range(3)})
-        p.update(dt=dt, ts=ts, kind=kind)
+        # fixed steps must ignore dt_min (it belongs to the adaptive controller): pass one that is LARGER than dt now and then
+        dt_min = rng.choice([1e-5, 1e-5, 2.0 * dt, 10.0 * dt])
+        p.update(dt=dt, ts=ts, kind=kind, dt_min=dt_min)
         try:
             with torch.no_grad():
                 bm = RecordingBM(make_bm(p, ts[0], ts[-1]))
-                ys = torchsde.sdeint(sde, y0, ts, bm=bm, method=p['method'], dt=dt)
+                ys = torchsde.sdeint(sde, y0, ts, bm=bm, method=p['method'], dt=dt, dt_min=dt_min)
                 log = bm.log
                 bad = None
                 if not torch.equal(ys[0], y0):
@@ -208,7 +210,7 @@ def c12_search(rng, n):
                 # an output strictly inside a step is the linear interpolant of the two neighbouring grid states
                 if bad is None and log:
                     grid = [log[0][0]] + [b for a, b in log]
-                    yg = torchsde.sdeint(sde, y0, grid, bm=make_bm(p, ts[0], ts[-1]), method=p['method'], dt=dt) \
+                    yg = torchsde.sdeint(sde, y0, grid, bm=make_bm(p, ts[0], ts[-1]), method=p['method'], dt=dt, dt_min=dt_min) \
                         if len(grid) > 1 else None
                     for i, t in enumerate(ts[1:], 1):
                         t = float(tt[i])
@@ -222,7 +224,7 @@ def c12_search(rng, n):
                 extra = sorted(set([ts[0], ts[-1]] + [rng.choice(ts) for _ in range(2)] +
                                    [rng.uniform(ts[0], ts[-1]) for _ in range(rng.randrange(0, 4))]))
                 bm2 = RecordingBM(make_bm(p, ts[0], ts[-1]))
-                ys2 = torchsde.sdeint(sde, y0, extra, bm=bm2, method=p['method'], dt=dt)
+                ys2 = torchsde.sdeint(sde, y0, extra, bm=bm2, method=p['method'], dt=dt, dt_min=dt_min)
                 for i, t in enumerate(ts):
                     if t in extra:
                         st['invariance_checks'] += 1
@@ -232,7 +234,7 @@ def c12_search(rng, n):
                     bad = 'the sequence of solver steps depends on the output times'
                 # list vs tensor ts
                 ys3 = torchsde.sdeint(sde, y0, torch.tensor(ts, dtype=torch.float64), bm=make_bm(p, ts[0], ts[-1]),
-                                      method=p['method'], dt=dt)
+                                      method=p['method'], dt=dt, dt_min=dt_min)
                 if not torch.equal(ys, ys3):
                     bad = 'list ts and tensor ts give different results'
         except Exception as e:  # noqa
@@ -250,7 +252,7 @@ def c13_search(rng, n):
     fails, st = [], dict(evals=0, chunks=0)
     for _ in range(n):
         p, sde, y0 = make_problem(rng)
-        dt = rng.choice([0.125, 0.25, 0.0625])
+        dt = rng.choice([0.125, 0.25, 0.0625, 0.1, 0.05, 0.07])
         nsteps = rng.randrange(2, 14)
         t0 = rng.choice([0.0, 0.5])
         cuts = sorted(rng.sample(range(1, nsteps), min(nsteps - 1, rng.randrange(1, 5))))
@@ -259,6 +261,16 @@ def c13_search(rng, n):
         bad = None
         try:
             with torch.no_grad():
+                # the restart points are taken from the grid the one-shot solve ACTUALLY walks (for a non-dyadic dt the
+                # accumulated `curr_t + dt` is not `t0 + k dt` in floats): record it first
+                rec = RecordingBM(make_bm(p, grid[0], grid[-1]))
+                torchsde.sdeint(sde, y0, [grid[0], grid[-1]], bm=rec, method=p['method'], dt=dt)
+                walked = [rec.log[0][0]] + [b for a, b in rec.log]
+                walked = sorted(set(walked))
+                if len(walked) >= 3:
+                    inner = sorted(rng.sample(walked[1:-1], min(len(walked) - 2, len(cuts))))
+                    grid = [walked[0]] + inner + [walked[-1]]
+                    p.update(grid=grid)
                 bm = make_bm(p, grid[0], grid[-1])
                 one, one_extra = torchsde.sdeint(sde, y0, [grid[0], grid[-1]], bm=bm, method=p['method'], dt=dt,
                                                  extra=True)
@@ -1051,13 +1063,16 @@ def c09_search(rng, n):
     for sde_type, noise, method, am in combos[:max(6, n // 4)]:
         seed = rng.randrange(10 ** 6)
         try:
-            errs = c09_gradient_errors(sde_type, noise, method, am, seed)
+            # order-0.5 adjoint solvers converge slowly and noisily (single set of 64 paths): compare a coarse step with the
+            # mean of two fine ones; a broken adjoint leaves an O(1) error that does not move
+            errs = c09_gradient_errors(sde_type, noise, method, am, seed, ks=(3, 9, 10))
+            final = 0.5 * (errs[1] + errs[2])
             st['convergence'] += 1
             st['evals'] += 1
-            st['worst_final_err'] = max(st['worst_final_err'], errs[-1])
-            if not (errs[-1] < 0.6 * errs[0] or errs[-1] < 2e-3):
+            st['worst_final_err'] = max(st['worst_final_err'], final)
+            if not (final < max(0.08, 0.6 * errs[0])):
                 fails.append(dict(kind='c09-convergence', sde_type=sde_type, noise=noise, method=method, adjoint_method=am, seed=seed,
-                                  why=f"relative gradient errors {errs} at dt = 2^-3, 2^-5, 2^-7 do not shrink"))
+                                  why=f"relative gradient errors {errs} at dt = 2^-3, 2^-9, 2^-10 do not shrink"))
         except Exception as e:  # noqa
             fails.append(dict(kind='c09-convergence', sde_type=sde_type, noise=noise, method=method, adjoint_method=am, seed=seed,
                               why=f"{type(e).__name__}: {e}"))
